@@ -106,6 +106,11 @@ const (
 	opCustom           // draw from Custom(fn) where fn runs the sub-program on its own T
 	opDrawSmall        // IntRange(0,3).Draw
 	opFatalIfBit       // Fatalf at site C iff the last drawn bool was true (data-dependent failure)
+	opDrawWord         // read one raw 64-bit word from the bitstream
+	opIfBit            // execute the next opcode only if the last drawn bool was true
+	opNilDerefB        // run-time panic at a second site (same message as opNilDeref)
+	opDeepA            // Fatalf reached through 20 frames of recursion, called from statement A
+	opDeepB            // the same helper called from statement B: the tracebacks differ only in the outermost frames
 	opCount
 )
 
@@ -141,6 +146,7 @@ type vInv struct {
 type vProg struct {
 	ops  []uint8 // main program
 	sub  []uint8 // sub-program for cleanup / custom callbacks
+	sub2 []uint8 // program of a cleanup registered from inside a callback
 	invs []*vInv
 	cur  *vInv
 	nextCleanup int
@@ -159,6 +165,11 @@ func newVProg(name string, k, ksub int, alphabet []uint8, subAlphabet []uint8) *
 		op := nondetU8(name + ".sub" + itoa(i))
 		assume(inAlphabet(op, subAlphabet))
 		p.sub = append(p.sub, op)
+	}
+	if ksub > 0 {
+		op := nondetU8(name + ".nested0")
+		assume(inAlphabet(op, []uint8{opReturn, opErrorf, opFatalB, opSkip}))
+		p.sub2 = append(p.sub2, op)
 	}
 	return p
 }
@@ -194,8 +205,15 @@ func (p *vProg) exec(t *T, ops []uint8, inv *vInv, inCallback bool) {
 
 func (p *vProg) execCB(t *T, ops []uint8, inv *vInv, inCallback bool, inCleanup bool) {
 	lastBit := false
+	skipNext := false
 	for _, op := range ops {
+		if skipNext {
+			skipNext = false
+			continue
+		}
 		switch op {
+		case opIfBit:
+			skipNext = !lastBit
 		case opReturn:
 			return
 		case opDrawBool:
@@ -211,6 +229,10 @@ func (p *vProg) execCB(t *T, ops []uint8, inv *vInv, inCallback bool, inCleanup 
 			inv.attempts++
 			v := Uint8().Draw(t, "u8")
 			inv.draws = append(inv.draws, uint64(v))
+		case opDrawWord:
+			inv.attempts++
+			w := t.s.drawBits(64)
+			inv.draws = append(inv.draws, w)
 		case opDrawSmall:
 			inv.attempts++
 			v := IntRange(0, 3).Draw(t, "small")
@@ -257,6 +279,20 @@ func (p *vProg) execCB(t *T, ops []uint8, inv *vInv, inCallback bool, inCleanup 
 			inv.fatalAt = 7
 			var q *vInv
 			_ = q.signals
+		case opNilDerefB:
+			inv.signals++
+			inv.rawPanics++
+			inv.fatalAt = 8
+			var q2 *vInv
+			_ = q2.signals
+		case opDeepA:
+			inv.signals++
+			inv.fatalAt = 9
+			deepFatal(t, 20)
+		case opDeepB:
+			inv.signals++
+			inv.fatalAt = 10
+			deepFatal(t, 20)
 		case opSkip:
 			inv.skipped = true
 			if inCleanup {
@@ -284,7 +320,10 @@ func (p *vProg) execCB(t *T, ops []uint8, inv *vInv, inCallback bool, inCleanup 
 			inv.cleanIds = append(inv.cleanIds, id)
 			sub := p.sub
 			if inCallback {
-				sub = nil // nested registration: an empty cleanup
+				sub = p.sub2 // nested registration
+			}
+			if inCleanup && inCallback && len(ops) == len(p.sub2) && len(p.sub2) > 0 && &ops[0] == &p.sub2[0] {
+				sub = nil // third level: an empty cleanup
 			}
 			t.Cleanup(func() {
 				inv.cleanRun = append(inv.cleanRun, id)
@@ -309,4 +348,11 @@ func (p *vProg) execCB(t *T, ops []uint8, inv *vInv, inCallback bool, inCleanup 
 			inv.draws = append(inv.draws, uint64(v))
 		}
 	}
+}
+
+func deepFatal(t *T, depth int) {
+	if depth == 0 {
+		t.Fatalf("fatal deep inside")
+	}
+	deepFatal(t, depth-1)
 }
